@@ -220,6 +220,12 @@ func genC19Case(r *rand.Rand, idx int64) *c19Case {
 				// explicit empty YAML/TOML = a valid namespace named ""; not generated in
 				// atomic mode (would not be attributable to a file)
 				st.Kind, st.Content = valid(f, false)
+			} else if opl && r.IntN(2) == 0 {
+				// a VALID version without any class (all classes moved elsewhere, only
+				// comments or the import line left): its namespaces must go away
+				st.Kind = "valid-no-classes"
+				st.Content = pickS(r, []string{"// nothing left in this file\n", "import { Namespace, Context } from \"@ory/keto-namespace-types\"\n", "/* moved to another file */\n\n"})
+				lastNames[f], lastContent[f] = nil, st.Content
 			} else {
 				st.Kind, st.Content = "empty", ""
 			}
@@ -234,7 +240,7 @@ func genC19Case(r *rand.Rand, idx int64) *c19Case {
 	// the writer obtains a proof that the watcher read it before going on). A valid
 	// version that is overwritten before any watcher could read it cannot be
 	// required to take effect.
-	isValid := func(k string) bool { return k == "valid" || k == "valid-same-names" }
+	isValid := func(k string) bool { return k == "valid" || k == "valid-same-names" || k == "valid-no-classes" }
 	for i := range c.Steps {
 		if !isValid(c.Steps[i].Kind) {
 			continue
